@@ -107,3 +107,52 @@ theorem cyclic_refused_false : (runOld quirkFirst).cls = "ok" ∧ (runOld quirkL
 theorem quirk_refused_now : run quirkFirst = ⟨"cycle", []⟩ ∧ run quirkLast = ⟨"cycle", []⟩ := by decide
 
 end CV.DepGraph
+
+/-! ### round 6: "after an error no new visitor starts" is false for `walk` (and is not what the property says)
+
+A failing worker runs `t.done` (status `visited`) and hands its vertex to the coordinator *before* it returns its error to
+the errgroup; `visit` never looks at the context.  So the coordinator may already be scheduling the dependents when the
+error is recorded, and goes on to claim and spawn them; and even afterwards its `select` may prefer `nodeCh` to
+`ctx.Done()`.  The property only promises that `walk` returns the first error after every started visit has returned.
+`corpus/C13/start-after-error.json` replays the witness schedule on the real code (scripted; the judge insists that a
+visitor really is entered after a failed worker's exit).  What does hold is `Props/C13Lts.lean no_new_worker_after_cancel_partial`. -/
+namespace CV.Trav
+
+/-- the full-strength statement: from the moment an error is recorded no further visitor is entered -/
+def ErrorStopsNewVisits (g : Graph) (lim : Option Nat) : Prop :=
+  ∀ s l s', Reach g lim s → s.firstErr ≠ none → step? g lim s l = some s' → starts s'.log = starts s.log
+
+/-- 1 depends on 0 -/
+def chain2 : Graph :=
+  { verts := [0, 1], pre := fun v => if v = 1 then [0] else [], post := fun v => if v = 0 then [1] else [],
+    skip := fun _ => false }
+
+/-- 0 fails; the coordinator receives 0 and picks 1 before worker 0 returns its error; then — error recorded, context
+cancelled — it tests, claims and spawns 1 -/
+def lateStart : List Label :=
+  [.schedNext .M 0, .ready .M, .enter .M, .spawn .M, .schedEnd .M, .wBegin 0, .wReturn 0 true, .wDone 0, .wSend 0,
+   .cRecv, .schedNext .C 1, .wExit 0, .ready .C, .enter .C, .spawn .C, .schedEnd .C]
+
+theorem lateStart_witness :
+    (runL chain2 none (init chain2) lateStart).bind (fun s => (step? chain2 none s (.wBegin 1)).map
+      (fun s' => (s.firstErr, s.cancelled, starts s.log, starts s'.log))) = some (some 0, true, [0], [1, 0]) := by decide
+
+theorem error_stops_new_visits_false : ¬ ErrorStopsNewVisits chain2 none := by
+  intro H
+  have key := lateStart_witness
+  cases h1 : runL chain2 none (init chain2) lateStart with
+  | none => rw [h1] at key; cases key
+  | some s =>
+    rw [h1] at key
+    simp only [Option.bind_some] at key
+    cases h2 : step? chain2 none s (.wBegin 1) with
+    | none => rw [h2] at key; cases key
+    | some s' =>
+      rw [h2] at key
+      simp only [Option.map_some, Option.some.injEq, Prod.mk.injEq] at key
+      obtain ⟨hf, _, ha, hb⟩ := key
+      have := H s _ s' (reach_runL Reach.init lateStart h1) (by rw [hf]; simp) h2
+      rw [ha, hb] at this
+      cases this
+
+end CV.Trav
